@@ -1148,7 +1148,16 @@ META = {
                  'kernel, Kronecker factorisation in 2D/3D, closed-form inverses) and of the first-active index arithmetic of the 1D assemblers; '
                  'exact Qc model of the 1D assemblers tied to the implementation (structure exactly, floats within a derived bound) with the '
                  'Gauss tables regenerated from numpy and checked in Coq; independent exact piecewise-polynomial oracle for every route',
-    'level_text': 'see coq/C09/Props.v; tie and oracle: harness/props/c09.py',
+    'level_text': 'Theorems (Coq, 38): for ANY quadrature rule given as weighted points: Gram matrices are symmetric and positive semidefinite (sum of squares), '
+                  'mass entries sum to the sum of the weights = |domain| (iterated_weights_sum), K*1 = 0, Kronecker factorisation of the 2D/3D mass and stiffness '
+                  'formulas, det/inv closed forms (field); for every kv_ok knot vector: biform_1d_entry / biform_asym_entry (the matrices assembled by the model of '
+                  'bsp_mixed_deriv_biform_1d(_asym) are the Gram matrices of the Cox-de Boor derivatives, using C02), first_active_correct, mass_sum_bspline, '
+                  'stiff_kernel_bspline, nqp_default_suffices/exact. Regenerated and re-proved on every run: numpy leggauss(q) tables for q <= 13 (positive weights, '
+                  'moments to degree 2q-1 within 2e-15) and quadrature.gauss_rule (translated by ast, proved equal to the model). Tie: exact Qc model of the 1D assemblers '
+                  'against the implementation (nqp, mesh, span indices, first-active, pattern exactly; entries within a derived bound); independent exact piecewise-'
+                  'polynomial oracle for all five routes (Kronecker, generic, fast_nogeo, string, vform) in 1-3D incl. anisotropic spaces, weight functions, two-space '
+                  'routine, load vectors / inner products / integrate with both values of f_physical on quadrilaterals and parallelepipeds of both orientations, '
+                  'mass_fast/stiffness_fast entrywise (and stored pattern) against the generic assembler.',
     'level_note': 'proved: assembled 1D matrices (symmetric and two-space routine) = Gram matrices of the reference B-spline derivatives for every kv_ok '
                   'knot vector, hence sum = |domain|, K*1 = 0, symmetry, PSD for the model\'s output; default nqp is the least sufficient node count. '
                   'partial: polynomial structure per span + Gauss exactness only as bounded table check + linearity; definiteness / kernel dimension '
